@@ -112,6 +112,10 @@ pub fn child(args: &[String]) -> i32 {
                     }
                 }
             }
+            "image" => {
+                // what this process loaded at its start (used by the re-partitioning part: a fresh process, another partition count)
+                events.push(json!({"event": "restart", "image": images(node.as_ref().unwrap())}));
+            }
             "restart" => {
                 node = None;
                 let d2 = dir.clone();
@@ -455,10 +459,50 @@ pub fn run(tier: &str) -> i32 {
             });
         }
     });
+    // the number of partitions is a setting: a node restarted with another value against the same bucket still has to
+    // restore what it snapshotted (the loader reads every partition object it finds)
+    let mut repartition_cases = 0u64;
+    {
+        let pairs: Vec<(u64, u64)> = if thorough { vec![(10, 3), (3, 10), (10, 1), (1, 3), (3, 3), (1, 10), (10, 10), (3, 1)] } else { vec![(10, 3), (3, 10), (10, 1), (3, 3)] };
+        for (ci, (a, b)) in pairs.iter().enumerate() {
+            for round in 0..(if thorough { 4 } else { 1 }) {
+                let nkeys = 12 + 9 * round;
+                let mut ops: Vec<serde_json::Value> = (0..nkeys).map(|i| json!(["set", 0, format!("key-{}", i), (i + ci) % 6])).collect();
+                ops.push(json!(["set", 0, "key-1", 2]));
+                ops.push(json!(["snap", [0], false]));
+                ops.push(json!(["declutter"]));
+                let h = json!({"dbs": [["one", "none"], ["two", "newer"]], "ops": ops});
+                let bucket = format!("rp{}x{}", ci, round);
+                let dir = fresh_dir("c18-repart");
+                let first = run_child(&h, &Config { strategy: "s3_patition", partitions: *a, fault: None, put_fault_shape: (500, 1) }, &stub, &bucket, &dir);
+                let _ = std::fs::remove_dir_all(&dir);
+                let dir2 = fresh_dir("c18-repart");
+                let second = run_child(&json!({"dbs": [["one", "none"], ["two", "newer"]], "ops": [["image"]]}), &Config { strategy: "s3_patition", partitions: *b, fault: None, put_fault_shape: (500, 1) }, &stub, &bucket, &dir2);
+                let _ = std::fs::remove_dir_all(&dir2);
+                let (Some(first), Some(second)) = (first, second) else {
+                    v.inconclusive("re-partitioning run produced no result");
+                    continue;
+                };
+                let snap = first["events"].as_array().unwrap().iter().find(|e| e["event"] == "snapshot-completed").map(|e| e["image"].clone());
+                let loaded = second["events"].as_array().unwrap().iter().find(|e| e["event"] == "restart").map(|e| e["image"].clone());
+                let (Some(snap), Some(loaded)) = (snap, loaded) else {
+                    v.inconclusive("re-partitioning run: snapshot or restart event missing");
+                    continue;
+                };
+                repartition_cases += 1;
+                // identifier / strategy differences are the known missing-metadata findings of the S3 strategies
+                for (p, d) in diff(&snap, &loaded).into_iter().filter(|x| x.0 != "database-id-or-strategy-differs") {
+                    v.report(json!({"check": "s3", "strategy": "s3_patition", "problem": p, "context": "restart-with-another-number-of-partitions"}),
+                        json!({"partitions_at_snapshot": a, "partitions_at_restart": b, "keys": nkeys, "detail": d, "snapshotted": snap, "restored": loaded}));
+                }
+            }
+        }
+    }
     let s = st.into_inner().unwrap();
-    ev.evaluations = s.runs;
+    ev.evaluations = s.runs + 2 * repartition_cases;
+    ev.set("restarts_with_another_number_of_partitions", json!(repartition_cases));
     ev.distinct_nontrivial = s.shapes.len() as u64;
-    ev.rule = format!("{} generated histories (set / set-safe / remove / increment / snapshot incremental|reclaim of one or both databases / declutter / restart over 2 databases x 3 keys x 6 value classes; every 5th history uses the prefix-related names a / ab), each run in child processes under disk (reference) and two of 10 configurations (s3; s3_patition with 1, 3, 10 partitions; 2nd PUT fails once / always; 1st GET fails once) against tools/s3stub.py with a fresh bucket per run; every restart of the S3 run is compared with the same restart of the disk run; distinct_nontrivial = distinct (configuration, history features, outcome class) shapes", n_hist);
+    ev.rule = format!("{} generated histories (set / set-safe / remove / increment / snapshot incremental|reclaim of one or both databases / declutter / restart over 2 databases x 3 keys x 6 value classes; every 5th history uses the prefix-related names a / ab), each run in child processes under disk (reference) and two of 10 configurations (s3; s3_patition with 1, 3, 10 partitions; 2nd PUT fails once / always; 1st GET fails once) against tools/s3stub.py with a fresh bucket per run; every restart of the S3 run is compared with the same restart of the disk run; + {} restarts of a fresh process with another number of partitions (10->3, 3->10, 10->1, ...) against the bucket a snapshot of 12-39 keys was written to, compared with the image at the snapshot; distinct_nontrivial = distinct (configuration, history features, outcome class) shapes", n_hist, repartition_cases);
     ev.samples = s.samples.clone();
     ev.set("histories", json!(s.histories));
     ev.set("restarts_compared_with_disk_run", json!(s.restarts_compared));
